@@ -2306,10 +2306,10 @@ PROFILES = {
     # weights of operation kinds; observation ops are additionally boosted right after a change
     "C09": {"call": 10, "disp": 9, "update": 2, "clear": 1.5, "data_": 6, "inplace": 5, "sgd": 2, "reset": 2, "grid_": 5,
             "condition_": 4, "copy": 6, "deepcopy": 1.5, "inverse": 3, "link_": 1.5, "compose": 2, "roundtrip": 2,
-            "arm": 2, "interrupt": 2, "checkpoint": 1.5, "restart": 1.5, "fit": 2.5, "restore": 1, "cast": 1},
+            "arm": 2, "interrupt": 3.5, "checkpoint": 3, "restart": 3, "fit": 2.5, "restore": 2, "cast": 1},
     "C07": {"call": 4, "disp": 2, "update": 1, "clear": 0.5, "data_": 5, "inplace": 7, "sgd": 3, "reset": 1.5, "grid_": 1,
             "condition_": 4, "copy": 2, "deepcopy": 0.5, "inverse": 9, "link_": 0.5, "compose": 2.5, "roundtrip": 16,
-            "arm": 1, "interrupt": 0.5, "checkpoint": 0.5, "restart": 0.5, "fit": 1.5, "restore": 0.5, "cast": 0.5},
+            "arm": 1, "interrupt": 1, "checkpoint": 1, "restart": 1, "fit": 1.5, "restore": 0.7, "cast": 0.5},
 }
 
 
@@ -2348,7 +2348,7 @@ class _Gen:
             names = [n for n in LIN if not (n == "QuaternionRotation" and D != 3)]
             name = rng.choice(names)
             if name == "EulerRotation" and D == 3:
-                op["kw"] = {"order": rng.choice([None, "ZXZ", "XYZ", "ZYX", "XZX"])}
+                op["kw"] = {"order": rng.choice([None, "ZXZ", "XYZ", "ZYX", "XZX", "ZXY", "YXZ", "XYZ"])}
             nout = 1
         elif fam == "linseq":
             names = [n for n in LINSEQ if not (n == "RigidQuaternionTransform" and D != 3)]
@@ -2397,7 +2397,7 @@ class _Gen:
                 gd["align_corners"] = True
                 cps = rng.choice([2, 3])
             op["config"] = {"transform": model, "affine_model": aff, "control_point_spacing": cps,
-                            "scaling_and_squaring_steps": rng.choice([5, 6]), "rotation_model": "ZXZ"}
+                            "scaling_and_squaring_steps": rng.choice([5, 6]), "rotation_model": rng.choice(["ZXZ", "ZXZ", "XYZ", "ZYX", "XZX"])}
             kind = rng.weighted([("P", 3), ("B", 2), ("C", 4)])
             if kind == "C" and "K" in aff:
                 aff = aff.replace("K", "")  # predicted shearing is not supported by GenericSpatialTransform._data (see DESIGN.md section 4)
@@ -2437,6 +2437,15 @@ class _Gen:
             for k in ("copy", "deepcopy", "inverse", "compose", "restart"):
                 W[k] = 0
         last = getattr(self, "last_kind", None)
+        hot0 = self.get(self.hot[0]) if self.hot else None
+        if hot0 is not None and not hot0.is_comp and family(hot0.obj) == "dense" and hot0.affine_params and kind_of(hot0.obj) in ("P", "B") and rng.chance(0.3):
+            # parameters are a world-affine field right now: the regime where world preservation across a grid change is a theorem
+            keep_hot, self.hot = self.hot, self.hot[:1]
+            op = self.gen_grid_(rng)
+            self.hot = keep_hot
+            if op is not None and op.get("h") == keep_hot[0]:
+                self.last_kind = None
+                return op
         if last in ("grid_", "data_", "condition_", "inplace", "reset", "fit", "link_") and self.hot and rng.chance(0.2):
             # the same kind of state change twice in a row on the same handle (an update lost or skipped because
             # "nothing changed" shows only then)
@@ -2535,7 +2544,10 @@ class _Gen:
                 return {"op": "grid_", "h": x.hid, "mode": "refuse", "variant": rng.choice(["size", "domain"])}
             dims = [i for i in range(D) if rng.chance(0.7)] or [0]
             return {"op": "grid_", "h": x.hid, "mode": "subdivide", "dims": dims}
-        mode = rng.weighted([("sub", 5), ("new", 3), ("acflip", 1.5), ("subdivide", 2)])
+        if getattr(x, "affine_params", False):
+            mode = rng.weighted([("sub", 6), ("new", 1.5), ("acflip", 3), ("subdivide", 3)])
+        else:
+            mode = rng.weighted([("sub", 5), ("new", 3), ("acflip", 1.5), ("subdivide", 2)])
         op = {"op": "grid_", "h": x.hid, "mode": mode, "pseed": rng.subseed()}
         if mode == "sub":
             op["grid"] = {"D": D, "size": [rng.randint(6, 20 if D == 2 else 10) for _ in range(D)], "spacing": [1.0] * D,
@@ -2596,7 +2608,11 @@ class _Gen:
         def offers(y):
             return offers_inverse(y.obj)
 
-        x = self.pick(rng, lambda y: offers(y) or rng.chance(0.05))
+        x = None
+        if rng.chance(0.4):
+            x = self.pick(rng, lambda y: offers(y) and any(cname(e.obj) in VELOCITY and e.buf == "fresh" for e in self.elems(y)))
+        if x is None:
+            x = self.pick(rng, lambda y: offers(y) or rng.chance(0.05))
         if x is None:
             return None
         op = {"op": "inverse", "h": x.hid, "link": bool(rng.chance(0.5)), "ub": bool(rng.chance(0.5)), "out": self.alloc(HID_BLOCK if x.is_comp else 1)}
